@@ -24,7 +24,7 @@ Inductive site :=
 | SHasAccount | SNewAccount | SSetAccount      (* zero-amount path of safeDepositToken *)
 | SMint | SSendToRecipient                     (* cache + recover of safeDepositToken *)
 | SHasMeta | SSetMeta                          (* denom metadata registration *)
-| SHookSend                                    (* keeper call made by a hook message *)
+| SHookSend                                    (* keeper calls made by one hook message *)
 | SReclaim | SBurn.                            (* undoing the credit after a failed hook *)
 
 Definition guarded (st : site) : bool :=
@@ -81,17 +81,18 @@ Definition meta_f (fe : fenv) (tr : list site) (d : bytes) : list site * bool :=
   let '(tr, x) := call fe tr SSetMeta in
   match x with Some _ => (tr, true) | None => (tr, false) end end.
 
-(* the hook's messages, on a cache: a fault in a keeper call of a message fails the hook *)
-Fixpoint hook_sends_f (c : cfg) (fe : fenv) (tr : list site) (b : bank) (signer : N)
-    (sends : list (N * bytes * Z)) : list site * option bank :=
-  match sends with
-  | [] => (tr, Some b)
-  | snd :: rest =>
+(* the hook's messages (bank sends, token withdrawals), on a cache of the whole state: a fault
+   in a keeper call of a message fails the hook and discards the cache *)
+Fixpoint hook_msgs_f (c : cfg) (fe : fenv) (tr : list site) (s : l2state) (signer : N)
+    (msgs : list hmsg) : list site * option l2state :=
+  match msgs with
+  | [] => (tr, Some s)
+  | m :: rest =>
       let '(tr, x) := call fe tr SHookSend in
       match x with Some _ => (tr, None) | None =>
-      match hook_send c b signer snd with
+      match hook_msg c s signer m with
       | None => (tr, None)
-      | Some b' => hook_sends_f c fe tr b' signer rest
+      | Some s' => hook_msgs_f c fe tr s' signer rest
       end end
   end.
 
@@ -100,12 +101,12 @@ Definition run_hook_f (c : cfg) (fe : fenv) (tr : list site) (s : l2state) (h : 
   match h with
   | HNone => (tr, (s, true))
   | HGarbage => (tr, (s, false))
-  | HTx signer tseq sig_ok sends =>
+  | HTx signer tseq sig_ok msgs =>
       if (p_hookgas (prm s) <? hook_gas_floor)%N then (tr, (s, false)) else
       if negb (sig_ok && (tseq =? getseq s signer)%N) then (tr, (s, false)) else
       let s1 := set_seqs s (<[signer := (getseq s signer + 1)%N]> (seqs s)) in
-      match hook_sends_f c fe tr (bk s1) signer sends with
-      | (tr, Some b) => (tr, (set_bk s1 b, true))
+      match hook_msgs_f c fe tr s1 signer msgs with
+      | (tr, Some s2) => (tr, (s2, true))
       | (tr, None) => (tr, (s1, false))
       end
   end.
